@@ -85,6 +85,17 @@ def apply_fault(f, data: bytes):
         b = bytearray(data)
         b[at], b[at + 1] = b[at + 1], b[at]
         return bytes(b), [at], True
+    if k == "relength":    # 16-bit big-endian length field at hdr+1 and the data after the 5-byte
+        hdr, d = f["hdr"], f["delta"]            # header lengthened/shortened to match it
+        if n < hdr + 5:
+            return data, [], False
+        size = data[hdr + 1] * 256 + data[hdr + 2]
+        new = max(0, min(65535, size + d))
+        end = min(n, hdr + 5 + size)
+        body = data[hdr + 5:end]
+        body = body + body[-1:] * (new - len(body)) if new > len(body) else body[:new]
+        out = data[:hdr + 1] + bytes([new >> 8, new & 255]) + data[hdr + 3:hdr + 5] + body + data[end:]
+        return out, [hdr + 1, hdr + 5 + min(new, size)], out != data
     if k == "balance":     # two coordinated corruptions that keep a total: +k here, -k there
         if n < 2:
             return data, [], False
@@ -126,7 +137,7 @@ def apply_plan(plan, data: bytes):
         elif f["kind"] == "sector_dup" and d:
             b = d[0]
             dmg = [x if x < b else x + (len(data) - before) for x in dmg]
-        elif f["kind"] in ("blob", "replace"):
+        elif f["kind"] in ("blob", "replace", "relength"):
             dmg = []
         elif f["kind"] == "insert" and d:
             dmg = [x if x < d[0] else x + 1 for x in dmg]
